@@ -205,24 +205,42 @@ func runBAL1(c *load.Ctx, r *report.RuleResult) {
 		return false, false
 	}
 	// does a deferred closure (or function) un-mark f?
+	// does calling (or deferring) fn take the mark on f off? Only an un-marking helper (a function whose
+	// whole business with the map is the un-mark) or a function literal that does it directly — not any
+	// function that somewhere below balances marks of its own (the recursive descent itself does that)
 	var unmarks func(fn *ssa.Function, f balField, depth int) bool
 	unmarks = func(fn *ssa.Function, f balField, depth int) bool {
-		if fn == nil || depth > 2 {
+		if fn == nil || depth > 1 {
 			return false
 		}
 		if h, ok := helper[fn]; ok && h.kind == "unmark" && h.f == f {
 			return true
 		}
+		if fn.Parent() == nil {
+			return false
+		}
+		marksToo := false
+		un := false
 		for _, op := range direct[fn] {
-			if op.kind == "unmark" && op.f == f {
-				return true
+			if op.f != f {
+				continue
 			}
+			if op.kind == "unmark" {
+				un = true
+			} else {
+				marksToo = true
+			}
+		}
+		if un && !marksToo {
+			return true
 		}
 		for _, b := range fn.Blocks {
 			for _, ins := range b.Instrs {
 				if call, ok := ins.(ssa.CallInstruction); ok {
-					if cal := call.Common().StaticCallee(); cal != nil && cal != fn && unmarks(cal, f, depth+1) {
-						return true
+					if cal := call.Common().StaticCallee(); cal != nil && cal != fn {
+						if h, ok := helper[cal]; ok && h.kind == "unmark" && h.f == f {
+							return true
+						}
 					}
 				}
 			}
